@@ -26,12 +26,14 @@ type c02Case struct {
 	Hist *eng.History `json:"hist,omitempty"`
 	Kube *kubeCase    `json:"kube,omitempty"`
 	Obj  *objCase     `json:"obj,omitempty"` // round 4: whole objects (keyed lists, custom kind, --force)
+	Act  *actCase     `json:"act,omitempty"` // round 4: real actions on charts of whole objects
 }
 
 type c02Obs struct {
 	Hist *eng.Obs `json:"hist,omitempty"`
 	Kube *kubeObs `json:"kube,omitempty"`
 	Obj  *objObs  `json:"obj,omitempty"`
+	Act  *actObs  `json:"act,omitempty"`
 }
 
 func (*c02) ID() string { return "C02" }
@@ -141,6 +143,7 @@ func (*c02) Corpus() []any {
 	}
 	out = append(out, kubeCorpus()...)
 	out = append(out, objCorpus()...)
+	out = append(out, actCorpus()...)
 	return out
 }
 
@@ -155,7 +158,11 @@ func (*c02) Generate(r *rand.Rand, i int) any {
 	// every third case is a rich-object case (round 4; quick_n went from 300 to 450 so that the number of
 	// flat cases and histories per run stayed what it was)
 	if i%3 == 2 {
-		return c02Case{Obj: genObjCase(rand.New(rand.NewSource(r.Int63())))}
+		r2 := rand.New(rand.NewSource(r.Int63()))
+		if (i/3)%3 == 0 {
+			return c02Case{Act: genActCase(r2)}
+		}
+		return c02Case{Obj: genObjCase(r2)}
 	}
 	if r.Intn(10) < 4 {
 		return c02Case{Kube: genKubeCase(r)}
@@ -209,6 +216,10 @@ func (*c02) Execute(ci any) any {
 		o := objExecute(c.Obj)
 		return c02Obs{Obj: &o}
 	}
+	if c.Act != nil {
+		o := actExecute(c.Act)
+		return c02Obs{Act: &o}
+	}
 	if c.Kube != nil {
 		o := kubeExecute(c.Kube)
 		return c02Obs{Kube: &o}
@@ -221,6 +232,9 @@ func (*c02) CoqCase(ci, oi any) string {
 	c, o := ci.(c02Case), oi.(c02Obs)
 	if c.Obj != nil {
 		return "CObj (" + objCoq(c.Obj, o.Obj) + ")"
+	}
+	if c.Act != nil {
+		return "CObj (" + actCoq(c.Act, o.Act) + ")"
 	}
 	if c.Kube != nil {
 		return "CKube (" + kubeCoq(c.Kube, o.Kube) + ")"
@@ -240,6 +254,9 @@ func (*c02) Class(ci, oi any) string {
 	c, o := ci.(c02Case), oi.(c02Obs)
 	if c.Obj != nil {
 		return objClass(c.Obj, o.Obj)
+	}
+	if c.Act != nil {
+		return actClass(c.Act, o.Act)
 	}
 	if c.Kube != nil {
 		res := "err"
@@ -273,6 +290,18 @@ func (*c02) NonTrivial(ci, oi any) bool {
 		}
 		return false
 	}
+	if c.Act != nil {
+		changed := 0
+		for _, so := range o.Act.Steps {
+			for _, call := range so.Calls {
+				if len(call.Obs.Muts) > 0 {
+					changed++
+					break
+				}
+			}
+		}
+		return changed >= 2
+	}
 	if c.Kube != nil {
 		return len(o.Kube.Muts) > 0
 	}
@@ -295,6 +324,9 @@ func (*c02) Oracle(ci, oi any) []hx.Violation {
 	c, o := ci.(c02Case), oi.(c02Obs)
 	if c.Obj != nil {
 		return objOracle(c.Obj, o.Obj)
+	}
+	if c.Act != nil {
+		return actOracle(c.Act, o.Act)
 	}
 	if c.Kube != nil {
 		return kubeOracle(c.Kube, o.Kube)
